@@ -383,6 +383,32 @@ func Methods(recv any) []string {
 	return names
 }
 
+// KeyedMethods marks the methods that take a key list, a map or a shape (also as a variadic tail of such):
+// the calls that build or edit type-local reference state (PartialExceptions, Shape, option lists).
+func KeyedMethods(recv any, names []string) map[string]bool {
+	rt := reflect.TypeOf(recv)
+	out := map[string]bool{}
+	for _, n := range names {
+		m, ok := rt.MethodByName(n)
+		if !ok {
+			continue
+		}
+		for i := 1; i < m.Type.NumIn(); i++ {
+			t := m.Type.In(i)
+			if m.Type.IsVariadic() && i == m.Type.NumIn()-1 {
+				t = t.Elem()
+				if t.Kind() == reflect.Interface {
+					continue // params ...any
+				}
+			}
+			if t.Kind() == reflect.Slice || t.Kind() == reflect.Map {
+				out[n] = true
+			}
+		}
+	}
+	return out
+}
+
 // ---------------------------------------------------------------------------------------------
 // snapshots
 
